@@ -896,6 +896,10 @@ class FedSim(object):
                     elif p.get("enc_arg") == "none":
                         kw["encrypt_assertion"] = None      # spelled out as "not decided by the caller"
                     # (otherwise the application leaves the argument out: the configuration decides)
+                    if (sign_r or sign_a) and srv.sec.cert_handler.generate_cert():
+                        self.count("probe.rolling-cert-branch")
+                        if kw.get("pefim"):
+                            self.count("probe.rolling-cert-pefim")
                     resp = srv.create_authn_response(
                         identity, authn=authn, sign_response=sign_r, sign_assertion=sign_a,
                         encrypt_assertion_self_contained=bool(p.get("self_contained", True)),
